@@ -314,8 +314,14 @@ func sub(elems []any, nonTerminals []lex.Token, defaultField string) ([]any, []l
 		return elems, nonTerminals, false
 	}
 
+	// the thing in between the parens has to be an already parsed expression
+	inner, ok := elems[1].(*expr.Expression)
+	if !ok {
+		return elems, nonTerminals, false
+	}
+
 	// we consumed two terminals, the ( and )
-	return []any{elems[1]}, drop(nonTerminals, 2), true
+	return []any{inner}, drop(nonTerminals, 2), true
 }
 
 func must(elems []any, nonTerminals []lex.Token, defaultField string) ([]any, []lex.Token, bool) {
